@@ -260,6 +260,8 @@ def m_nesting_blowup(r, lang, b):
         n = min(n, r.choice([60, 99, 150]))     # the tokenizer refuses more than 100 indentation levels
     if kind in ("elif", "elseif"):
         n = min(n, 1100)                         # a long else-if chain is already quadratic in some analyzers
+    if not BIG and kind in ("elif", "elseif", "block", "match", "object") and n in (400, 1100):
+        n = 150 if n == 400 else n               # 400 nested blocks + duplicate-code cost 15-40 CPU s each: thorough tier only
     body = blowup_text(lang, kind, n)
     where = r.choice(["alone", "appended", "prepended"])
     if where == "appended":
